@@ -745,7 +745,7 @@ def run_lex_sm(tier='quick'):
     texts of length <= 3 over 31 characters; every rule action must have been taken (-coverage)."""
     st = _new_stats()
     t0 = time.time()
-    r = common.run_tlc('MC_LexSM', cfg='MC_LexSM.cfg', coverage=True, timeout=900)
+    r = common.run_tlc('MC_LexSM', cfg='MC_LexSM.cfg', coverage='force', timeout=900)
     if not r.ok:
         raise MachineryError('TLC failed on MC_LexSM: rc=%s %s\n%s' % (r.rc, r.invariant_violated, r.out[-2000:]))
     cov = {k: v for k, v in r.coverage().items() if k.startswith('R_')}
